@@ -64,10 +64,10 @@ def substExpand (rep ln : Bytes) (offs : List Int) : Option Bytes :=
 
 /-- the per-line loop of `ec_substitute`: returns the new line text, or `none` if no match -/
 def substLine (re : RStr) (rep : Bytes) (g : Bool) (line : Bytes) : Option (Option Bytes) :=
-  let rec go : Nat → Bytes → Option Bytes → Option (Option Bytes × Bytes)
-    | 0, ln, r => some (r, ln)
-    | f + 1, ln, r =>
-      match rstrFind re ln 16 0 ND NG with
+  let rec go : Nat → Bytes → Option Bytes → Bool → Option (Option Bytes × Bytes)
+    | 0, ln, r, _ => some (r, ln)
+    | f + 1, ln, r, first =>
+      match rstrFind re ln 16 (if first then 0 else RE_NOTBOL) ND NG with
       | none => none
       | some (res, offs, _) =>
         if res < 0 then some (r, ln) else
@@ -77,14 +77,13 @@ def substLine (re : RStr) (rep : Bytes) (g : Bool) (line : Bytes) : Option (Opti
         | some x =>
           let acc := (r.getD []) ++ ln.take so ++ x
           let ln1 := ln.drop eo.toNat
-          -- zero-length match at the start of the rest: copy one byte
-          let (acc, ln2) := if eo ≤ 0 then
-              (match ln1 with | [] => (acc ++ [0], [0, 0]) | c :: t => (acc ++ [c], t))
-            else (acc, ln1)
-          if ln2 == [0, 0] then none    -- `*ln++` stepped over the terminator
-          else if ln2.isEmpty || ln2.headD 0 == 10 || !g then some (some acc, ln2)
-          else go f ln2 (some acc)
-  match go (line.length + 2) line none with
+          -- zero-length match at the start of the rest: copy one character (`uc_len` bytes)
+          let l := Uc.ucLen (ln1.headD 0)
+          if eo ≤ 0 && l > ln1.length then none else      -- a truncated character: memcpy past the terminator
+          let (acc, ln2) := if eo ≤ 0 then (acc ++ ln1.take l, ln1.drop l) else (acc, ln1)
+          if ln2.isEmpty || ln2.headD 0 == 10 || !g then some (some acc, ln2)
+          else go f ln2 (some acc) false
+  match go (line.length + 2) line none true with
   | none => none
   | some (none, _) => some none
   | some (some acc, rest) => some (some (acc ++ rest))
@@ -265,7 +264,7 @@ def runCmd : Nat → Ed → String → Bytes → Bytes → Bytes → Option Byte
       | some ((rc, b, e), ed) =>
         if rc != 0 && (b != 0 || e != 0) then some (1, ed) else
         let len := ed.len
-        let b := if cmd.headD 0 == 97 then (if b + 1 ≤ len then b + 1 else b) else b
+        let b := if cmd.headD 0 == 97 then e else b
         let e := if cmd.headD 0 != 99 then b else e
         match ed.edit txt b e with
         | none => none
@@ -551,9 +550,11 @@ def ecWrite (ed : Ed) (loc cmd arg : Bytes) : R Int :=
               | none => none
               | some cur =>
                 let (cur, ed) := if cur.path.isEmpty then ({ cur with path := path }, { ed with regs := ed.regs.put 37 path 0 }) else (cur, ed)
-                if cur.path == path then
+                if cur.path == path && b == 0 && e == ed.len then
                   let lb := savedCore cur.lb false
                   some (0, ed.setCur { cur with lb := (modified lb).2, mtime := ed.mtimeOf path })
+                else if cur.path == path then
+                  some (0, ed.setCur { cur with mtime := ed.mtimeOf path })
                 else some (0, ed.setCur cur)
 
 /-- `ex_exec(ln)` -/
@@ -570,7 +571,6 @@ def exExec : Nat → Ed → Bytes → R Int
         let idx := exIdx cmd
         let abbr := match idx with | some (a, _) => a | none => strOf "unknown"
         let (arg, ln) := exArg ln abbr
-        if arg == [0, 0, 0, 0] then none else
         let ((txt, ln), ed) := exTxt ed ln abbr
         match idx with
         | none => cmds g (ed.show (strOf "unknown command")) ln ret
